@@ -48,7 +48,7 @@ func (env *rEnv) typeOf(n *rNode) types.Type {
 			}
 		}
 	case "call":
-		if (n.Text == "old" || n.Text == "athead") && len(n.Args) == 1 {
+		if (n.Text == "old" || n.Text == "athead" || n.Text == "atentry") && len(n.Args) == 1 {
 			return env.typeOf(n.Args[0])
 		}
 		if n.Text == "delivered" {
@@ -140,6 +140,15 @@ func (env *rEnv) call(n *rNode) Value {
 		v := env.eval(n.Args[0])
 		env.useOld = saved
 		return v
+	case "atentry":
+		if env.entry == nil {
+			return env.fail("atentry() outside a loop clause")
+		}
+		savedE := env.useEntry
+		env.useEntry = true
+		ve := env.eval(n.Args[0])
+		env.useEntry = savedE
+		return ve
 	case "athead":
 		if env.head == nil {
 			return env.fail("athead() outside a loop body clause")
